@@ -237,7 +237,7 @@ func Gen(prop, tier string, seed, run uint64) Plan {
 	nStreams := len(p.Net.Convs)
 	p.Knobs = Knobs{NumCPU: 1, SnapEvery: 100_000, CleanupMinFree: 16 << 20}
 	switch prop {
-	case "C09", "C16", "C06", "C10", "C13", "C20":
+	case "C09", "C16", "C06", "C10", "C13":
 		p.Yield = run%3 == 1
 	}
 	if r.IntN(3) == 0 {
